@@ -1,5 +1,174 @@
+"""C13: metadata behaves as a dictionary persisted to metadata.json.
+Array: graph walk + trace validation (arrayhist).  RaggedArray: the same
+metadata macro-edges of spec/Array.tla replayed on ragged arrays.  Creation:
+the TLC table of spec/MetaCreate.tla (file exists iff metadata non-empty)."""
+import json
+import os
+import shutil
+import tempfile
+
+import numpy as np
+
 from . import arrayhist
+from .. import arraymodel as am
+from .. import tlc, walk, tour, disk
+from ..common import Run, Machinery
+
+
+class RaggedMetaSess(arrayhist.Sess):
+    """metadata of a RaggedArray driven by the M_* labels of spec/Array.tla"""
+
+    def materialize(self, st):
+        if os.path.exists(self.path):
+            shutil.rmtree(self.path)
+        md = self.mdict(am._asmap(st['refmeta']))
+        items = [np.arange(3, dtype='int16'), np.zeros(0, 'int16')]
+        try:
+            self.a = self.darr.asraggedarray(self.path, items, metadata=md or None, accessmode=st['mode'])
+        except Exception as e:
+            raise am.ImplFailure('asraggedarray(metadata=%r) failed: %r' % (md, e)) from None
+        if st.get('mmode', st['mode']) != st['mode']:
+            self.a.metadata.accessmode = st['mmode']
+
+    def do_Reopen(self, m):
+        self.a = self.darr.RaggedArray(self.path, accessmode=m)
+
+    def observe(self):
+        o = {'exists': True}
+        ms, meta = disk.read_json(os.path.join(self.path, 'metadata.json'))
+        if ms == 'absent':
+            o['meta'] = {'k': 'absent'}
+        elif ms == 'torn' or not isinstance(meta, dict):
+            o['meta'] = {'k': 'torn'}
+        else:
+            m = {'k1': 0, 'k2': 0}
+            for kk, vv in meta.items():
+                if kk in self.rkeys:
+                    m[self.rkeys[kk]] = self.mabs(vv)
+            o['meta'] = {'k': 'ok', 'd': m}
+        md = self.a.metadata
+        try:
+            dd = dict(md)
+            lm = {'k1': 0, 'k2': 0}
+            for kk, vv in dd.items():
+                if kk in self.rkeys:
+                    lm[self.rkeys[kk]] = self.mabs(vv)
+            agree = (len(md) == len(dd) and sorted(md.keys()) == sorted(dd.keys()) and all(k in md for k in dd)
+                     and all(am.canon(md[k]) == am.canon(dd[k]) for k in dd) and md.get('#nokey', 5) == 5)
+            o['livemeta'] = {'d': lm, 'accessors_agree': agree, 'n': len(dd)}
+        except Exception as e:
+            o['livemeta'] = {'error': repr(e)}
+        try:
+            fm = {'k1': 0, 'k2': 0}
+            for kk, vv in dict(self.darr.RaggedArray(self.path).metadata).items():
+                if kk in self.rkeys:
+                    fm[self.rkeys[kk]] = self.mabs(vv)
+            o['fresh'] = {'meta': fm}
+        except Exception as e:
+            o['fresh'] = {'meta_error': repr(e)}
+        o['live'] = {'mode': self.a.accessmode, 'mmode': md.accessmode}
+        return o
+
+
+class RBinding(arrayhist.Binding):
+    ALL = ('C13',)
+
+    def make_session(self, cfgi, m, path=None):
+        cfg = self.configs[cfgi % len(self.configs)]
+        return RaggedMetaSess(cfg, metaset=cfgi // 3, keyset=cfgi // 5)
+
+    def before(self, sess, m):
+        return None
+
+
+def ragged_metadata(run, tier, seed):
+    from ..concretize import pick_configs
+    r, g = am.run_instance('C13_rmeta', invariants=['Meta_Model', 'TypeOK'], properties=(), Ops=['meta', 'mode', 'metamode'],
+                           InitModes=['r+'], MaxRows=1, InitLens=[1],
+                           InitMetas=[{'k1': 0, 'k2': 0}, {'k1': 1, 'k2': 0}, {'k1': 2, 'k2': 1}])
+    run.tlc('Array_meta_for_ragged', r)
+    mg = walk.MacroGraph(g, am.quiescent)
+    configs = pick_configs(27, seed)
+    b = RBinding(configs, configs)
+    sel = lambda m: m.name in ('M_Call', 'SetMode', 'SetMetaMode')
+    macros, res = tour.edge_tour(b, mg, ['C13'], 27, per_edge=(2 if tier == 'thorough' else 1), seed=seed, select=sel)
+    for x in res:
+        if 'error' in x and 'mism' not in x:
+            raise Machinery('ragged metadata replay failed: ' + x['error'])
+        run.add('ragged_metadata_edge_replays')
+        mm = x.get('mism', {}).get('C13')
+        if mm and mm[0][0] == 'create_start_state':
+            run.violation('C13|ragged|create_start_state', {'mismatch': mm}, {'kind': 'ragged-meta-start', 'failure': mm[0][1]})
+        elif mm:
+            m = macros[x['idx']]
+            src = mg.rep[m.src]
+            run.violation('C13|ragged|%s|%s' % (arrayhist.edge_class(m, src), mm[0][0]),
+                          {'edge': m.label(), 'from_meta': src['refmeta'], 'mismatch': mm, 'out': x.get('out'),
+                           'exc': x.get('exc')}, {'kind': 'ragged-meta-edge', 'name': m.name, 'args': m.args})
+    run.add('traces_validated_against_impl', len(res))
+
+
+GIVEN = {'k': [1, {'n': None}], 'x': 2.5}
+
+
+def creation_cases(run, seed):
+    import darr
+    rows = tlc.table('MetaCreate', 'Rows', name='metacreate').rows
+    run.add('states', len(rows))
+    run.add('transitions', len(rows))
+    for row in rows:
+        root = tempfile.mkdtemp(prefix='darrc13c_')
+        try:
+            p = os.path.join(root, 'new')
+            occ = row['occupant']
+            ragged_creator = row['creator'] in ('asraggedarray', 'create_raggedarray', 'copy_ragged')
+            if occ != 'free':
+                omd = {'old': 1} if occ == 'hasmeta' else None
+                if ragged_creator:
+                    darr.asraggedarray(p, [[9], [8, 7]], metadata=omd)
+                else:
+                    darr.asarray(p, [9, 8, 7], metadata=omd)
+            md = {'none': None, 'empty': {}, 'some': dict(GIVEN)}[row['given']]
+            ow = occ != 'free'
+            c = row['creator']
+            if c == 'asarray':
+                x = darr.asarray(p, [1, 2], metadata=md, overwrite=ow)
+            elif c == 'create_array':
+                x = darr.create_array(p, shape=(2,), metadata=md, overwrite=ow)
+            elif c == 'asraggedarray':
+                x = darr.asraggedarray(p, [[1], [2, 3]], metadata=md, overwrite=ow)
+            elif c == 'create_raggedarray':
+                x = darr.create_raggedarray(p, metadata=md, overwrite=ow)
+            elif c == 'copy_array':
+                src = darr.asarray(os.path.join(root, 'src'), [1, 2], metadata=md if md else None)
+                x = src.copy(p, overwrite=ow)
+            else:
+                src = darr.asraggedarray(os.path.join(root, 'src'), [[1], [2, 3]], metadata=md if md else None)
+                x = src.copy(p, overwrite=ow)
+            run.add('creation_cases')
+            exists = os.path.exists(os.path.join(p, 'metadata.json'))
+            got = dict(x.metadata)
+            want = GIVEN if row['content'] == 'given' else {}
+            fresh = dict(darr.open(p).metadata)
+            if exists != row['fileexists'] or got != want or fresh != want:
+                run.violation('C13|creation|%s|given=%s|occupant=%s' % (c, row['given'], occ),
+                              {'case': row, 'metadata_json_exists': exists, 'metadata': got, 'fresh': fresh},
+                              {'kind': 'meta-creation', 'case': row})
+        finally:
+            shutil.rmtree(root, ignore_errors=True)
 
 
 def run(tier, seed):
-    return arrayhist.run_check('C13', tier, seed, 'meta')
+    run = Run('C13', tier, seed, 'model_checking')
+    arrayhist.run_family(run, 'C13', tier, seed, 'meta')
+    from .. import tracecheck
+    tracecheck.run_random(run, 'C13', 2000 if tier == 'thorough' else 120, 60 if tier == 'thorough' else 40, seed)
+    ragged_metadata(run, tier, seed)
+    creation_cases(run, seed)
+    run.cov['rule'] = ('Array: every metadata macro-edge of the TLC graph of spec/Array.tla (update, setitem, empty update, '
+                       'unserialisable update, pop, pop with default, popitem, del; metadata access mode) from all reachable '
+                       'metadata states over 2 keys x 2 values, with rotating concrete value kinds; long random histories '
+                       'validated by TLC (TraceArray, Focus C13); the same metadata edges replayed on RaggedArrays; creation '
+                       'cases (6 creating functions x metadata None/{}/dict x occupant) from the TLC table of spec/MetaCreate.tla')
+    run.assumptions += ['JSON round trip of model values computed with the standard json module and an independent NumPy conversion']
+    return run.finish()
